@@ -191,35 +191,50 @@ def p_trace(pot, phase, fe, rtol, K=10.0):
 
 # ---------------------------------------------------------------- interpolation-error model
 class SplineErrorModel:
-    """Intrinsic interpolation error of *this* knot set: a scipy not-a-knot CubicSpline
-    through the exact closed-form values V_exact(T_k), compared with the closed form and
-    its derivatives on a fine grid (8 points per knot interval).  err(n, T) returns the
-    maximum over the knot intervals within +-2 of the one containing T."""
+    """The *documented* accuracy model of the free-energy table (manager.initTemperatureRange:
+    "the error of a cubic spline scales like dT**4"), evaluated for this case:
 
-    def __init__(self, pot, phase, knots):
-        from scipy.interpolate import CubicSpline
+        |s   - f  | <= 5/384 h^4 M4        (Hall & Meyer 1976, any mesh, h = max spacing)
+        |s'  - f' | <= 1/24  h^3 M4
+        |s'' - f''| <= 3/8   h^2 M4
+
+    with h the largest knot spacing of the table (<= the dT handed to tracePhase) and M4 the
+    closed-form max |d4V/dT4| within 6 h of T, plus 0.27^6 times its maximum over the whole
+    table (the influence of a far-away interval on a cubic spline decays by 2-sqrt(3) per
+    knot).  Data noise nu (max |V_k - V_exact(T_k)| of the rows, at least 4 eps |V|) enters
+    as c_n nu / h_med^n with h_med the *median* spacing: a table whose abscissae nearly
+    coincide amplifies rounding noise far beyond that, which is a property of the table the
+    code produced and not something the model excuses."""
+
+    C = (5.0 / 384.0, 1.0 / 24.0, 3.0 / 8.0)
+    CN = (2.0, 4.0, 16.0)
+
+    def __init__(self, pot, phase, knots, nu):
         self.t = np.asarray(knots, dtype=float)
-        f = V(pot, phase, self.t)
-        sp = CubicSpline(self.t, f)
-        nsub = 8
-        u = (np.arange(nsub) + 0.5) / nsub
-        x = (self.t[:-1, None] + np.diff(self.t)[:, None] * u[None, :]).ravel()
-        ex = [V(pot, phase, x), dV(pot, phase, x), d2V(pot, phase, x)]
-        self.err = []
-        for n in range(3):
-            e = np.abs(sp(x, n) - ex[n]).reshape(-1, nsub).max(axis=1)
-            # running maximum over a window of +-2 intervals
-            pad = np.pad(e, 2, mode="edge")
-            self.err.append(np.max(np.stack([pad[i:i + e.size] for i in range(5)]), axis=0))
-        self.h = np.diff(self.t)
-        padh = np.pad(self.h, 2, mode="edge")
-        self.hmin = np.min(np.stack([padh[i:i + self.h.size] for i in range(5)]), axis=0)
+        h = np.diff(self.t)
+        self.hmax = float(h.max())
+        self.hmed = float(np.median(h))
+        self.hmin = float(h.min())
+        self.imin = int(np.argmin(h))
+        G = np.linspace(self.t[0], self.t[-1], 1201)
+        d2 = d2V(pot, phase, G)
+        dG = G[1] - G[0]
+        d4 = np.abs(np.diff(d2, 2)) / dG ** 2
+        self.G = G[1:-1]
+        self.d4 = d4
+        self.M4glob = float(np.max(d4))
+        Vs = np.abs(V(pot, phase, G))
+        self.nu = max(float(nu), 4 * EPS * float(np.max(Vs)))
 
-    def interval(self, T):
-        return int(min(max(np.searchsorted(self.t, T, side="right") - 1, 0), self.t.size - 2))
+    def M4(self, T):
+        w = 6 * self.hmax + (self.G[1] - self.G[0])
+        sel = np.abs(self.G - T) <= w
+        loc = float(np.max(self.d4[sel])) if np.any(sel) else self.M4glob
+        return loc + 0.27 ** 6 * self.M4glob
 
     def model(self, n, T):
-        return float(self.err[n][self.interval(T)])
+        return self.C[n] * self.hmax ** (4 - n) * self.M4(T) + self.CN[n] * self.nu / self.hmed ** n
 
-    def hloc(self, T):
-        return float(self.hmin[self.interval(T)])
+    def near_duplicate(self):
+        """(ratio h_min/h_med, location) of the closest pair of abscissae."""
+        return self.hmin / self.hmed, float(self.t[self.imin])
